@@ -517,3 +517,12 @@ func failOrGone(c *core.Ctx, rel, name, rule, key, at, msg string) {
 		c.Unrecognised(rule, key, at, "function "+name+" no longer exists in "+rel+" (renamed or inlined): "+msg+" — not evaluated")
 	}
 }
+
+// constInt: the integer constant value of e, if it has one.
+func constInt(info *types.Info, e ast.Expr) (int64, bool) {
+	tv, ok := info.Types[e]
+	if !ok || tv.Value == nil || tv.Value.Kind() != constant.Int {
+		return 0, false
+	}
+	return constant.Int64Val(tv.Value)
+}
